@@ -176,3 +176,67 @@ theorem whereRuns_spec (ind : List Bool) (a b : Nat) : (a, b) ∈ whereRuns ind 
   simpa [whereRuns] using this
 
 end Skc
+
+namespace Skc
+
+/-- lower bound for the start of every run still to be emitted -/
+def runLo (i : Nat) : Option Nat → Nat
+  | none => i
+  | some s => s
+
+/-- every run emitted from position `i` on starts at or after `runLo i o` and ends after it starts -/
+theorem whereRunsAux_bounds : ∀ (l : List Bool) (i : Nat) (o : Option Nat),
+    (∀ s, o = some s → s ≤ i) → ∀ r ∈ whereRunsAux l i o, runLo i o ≤ r.1 ∧ r.1 ≤ r.2
+  | [], i, none, _, r, h => by simp [whereRunsAux] at h
+  | [], i, some s, ho, r, h => by
+    simp only [whereRunsAux, List.mem_singleton] at h; subst h
+    exact ⟨Nat.le_refl _, ho s rfl⟩
+  | true :: l, i, none, _, r, h => by
+    have := whereRunsAux_bounds l (i + 1) (some i) (by intro s hs; cases hs; omega) r
+      (by simpa [whereRunsAux] using h)
+    simpa [runLo] using this
+  | true :: l, i, some s, ho, r, h => by
+    have hs := ho s rfl
+    have := whereRunsAux_bounds l (i + 1) (some s) (by intro s' hs'; cases hs'; omega) r
+      (by simpa [whereRunsAux] using h)
+    simpa [runLo] using this
+  | false :: l, i, some s, ho, r, h => by
+    have hs := ho s rfl
+    simp only [whereRunsAux, List.mem_cons] at h
+    rcases h with rfl | h
+    · exact ⟨Nat.le_refl _, hs⟩
+    · have := whereRunsAux_bounds l (i + 1) none (by intro s' hs'; cases hs') r h
+      simp only [runLo] at this ⊢; omega
+  | false :: l, i, none, _, r, h => by
+    have := whereRunsAux_bounds l (i + 1) none (by intro s' hs'; cases hs') r
+      (by simpa [whereRunsAux] using h)
+    simp only [runLo] at this ⊢; omega
+
+/-- runs are emitted in scan order and do not overlap -/
+theorem whereRunsAux_pairwise : ∀ (l : List Bool) (i : Nat) (o : Option Nat),
+    (∀ s, o = some s → s ≤ i) → (whereRunsAux l i o).Pairwise (fun r r' => r.2 ≤ r'.1)
+  | [], i, none, _ => by simp [whereRunsAux]
+  | [], i, some s, _ => by simp [whereRunsAux]
+  | true :: l, i, none, _ => by
+    simpa [whereRunsAux] using
+      whereRunsAux_pairwise l (i + 1) (some i) (by intro s hs; cases hs; omega)
+  | true :: l, i, some s, ho => by
+    have hs := ho s rfl
+    simpa [whereRunsAux] using
+      whereRunsAux_pairwise l (i + 1) (some s) (by intro s' hs'; cases hs'; omega)
+  | false :: l, i, some s, _ => by
+    simp only [whereRunsAux]
+    refine List.pairwise_cons.2 ⟨?_, whereRunsAux_pairwise l (i + 1) none (by intro s' hs'; cases hs')⟩
+    intro r hr
+    have := (whereRunsAux_bounds l (i + 1) none (by intro s' hs'; cases hs') r hr).1
+    simp only [runLo] at this ⊢; omega
+  | false :: l, i, none, _ => by
+    simpa [whereRunsAux] using
+      whereRunsAux_pairwise l (i + 1) none (by intro s' hs'; cases hs')
+
+/-- `where` returns its runs in increasing order, pairwise disjoint -/
+theorem whereRuns_pairwise (ind : List Bool) :
+    (whereRuns ind).Pairwise (fun r r' => r.2 ≤ r'.1) :=
+  whereRunsAux_pairwise ind 0 none (by intro s hs; cases hs)
+
+end Skc
